@@ -215,7 +215,12 @@ func (x *Exec) zeroResult(fn *ssa.Function) Val {
 }
 
 // applyContract: modular call — check the precondition, havoc what the callee may assign, assume the postcondition.
-func (x *Exec) applyContract(st *State, pk *Pkg, fn *ssa.Function, fc *FuncContract, args []Val) Val {
+func (x *Exec) applyContract(st *State, pk *Pkg, fn *ssa.Function, fc *FuncContract, args []Val) (result Val) {
+	x.defining(func() { result = x.applyContract1(st, pk, fn, fc, args) })
+	return result
+}
+
+func (x *Exec) applyContract1(st *State, pk *Pkg, fn *ssa.Function, fc *FuncContract, args []Val) Val {
 	o := x.o
 	seq := x.callSeq
 	x.callSeq++
